@@ -151,6 +151,7 @@ Proof.
   - (* force *)
     intros stack st r st' H Hr. cbn [force] in H.
     destruct stack as [|p rest]; [inversion H; subst; apply RunNil|].
+    destruct (is_fuel_err p) eqn:Hfe; [inversion H; subst; contradiction|].
     destruct (s_polls st) as [[|n]|] eqn:Hp.
     + (* cancelled *)
       inversion H; subst. eapply RunCons; [apply EvCancel; unfold poll; rewrite Hp; reflexivity | apply RsCancel].
